@@ -1,10 +1,12 @@
 (* C06 — A caught-up follower is an exact copy of its leader.
    Only the property theorems; every one is closed by a lemma of Proofs/FollowProofs.v about the
-   executable model Model/Follow.v (followCheckSome / followStep / followHandleCommand as repaired by
-   proposed_fixes/C06-follow-start-over.diff = mode [Repaired]; the code as found = mode [Pinned]).
+   executable model Model/Follow.v (followCheckSome / followStep / followHandleCommand; mode [Repaired] =
+   the working tree = commit "follow-start-over" (mode [Fixed1]) + proposed_fixes/C06-check-whole-prefix.diff;
+   mode [Pinned] = the code as found).
    Section hypotheses that become premises: [digest_eqb_spec] (string comparison of two digests),
    [md5_inj] (MD5 has no collision on equal-length blocks — trusted), [0 < csz] (checked for the
-   regenerated constant below). The command semantics (st, st0, app) is arbitrary. *)
+   regenerated constant below), [okrec]/prefix-freeness (RESP frames are self-delimiting — trusted;
+   satisfiable: toy_prefix_free). The command semantics (st, st0, app) is arbitrary. *)
 From Coq Require Import List ZArith Bool.
 From T38 Require Import Base.Bytes Gen.Consts Model.Follow Proofs.FollowProofs.
 Import ListNotations.
@@ -14,17 +16,34 @@ Open Scope Z_scope.
 Example c06_checksumsz_positive : 0 < c_checksumsz.
 Proof. reflexivity. Qed.
 
-(* the min/max/limit search terminates within the fuel the model gives it, for all files and sizes *)
+(* the min/max/limit search terminates within the fuel the model gives it, for all files, sizes, modes *)
 Theorem c06_search_terminates :
   forall digest md5 digest_eqb csz, 0 < csz ->
   forall md f fsz l, fst (check_some digest md5 digest_eqb csz md f fsz l) <> CSFuel.
 Proof. exact check_some_no_fuel. Qed.
 Print Assumptions c06_search_terminates.
 
-(* whatever position > 0 the check returns, for ANY two files: the first block and the block that ends
-   at the search position q are byte-for-byte equal in both files (q <= pos, pos = the record boundary
-   the follower keeps).  Nothing more: blocks that were not probed are not compared ("check some"). *)
+(* the repaired check against ANY leader log: it starts over, or it keeps the first k records of the
+   follower's file (all of them when "intact") and THE TWO FILES AGREE BYTE FOR BYTE UP TO THE RESUME
+   POSITION flen (firstn k f), which lies inside the leader's file; it never errs *)
 Theorem c06_search_sound :
+  forall digest md5 digest_eqb,
+  (forall a b, digest_eqb a b = true <-> a = b) ->
+  (forall a b : bytes, length a = length b -> md5 a = md5 b -> a = b) ->
+  forall csz, 0 < csz ->
+  forall f l res pr,
+  check_some digest md5 digest_eqb csz Repaired f (flen f) l = (res, pr) ->
+  res = CSStartOverSmall \/ res = CSStartOver \/
+  exists k, (k <= length f)%nat /\
+    firstn (Z.to_nat (flen (firstn k f))) (fbytes f) = firstn (Z.to_nat (flen (firstn k f))) (fbytes l) /\
+    flen (firstn k f) <= blen (fbytes l) /\
+    (res = CSTruncate (flen (firstn k f)) k \/ (res = CSIntact (flen f) /\ flen (firstn k f) = flen f)).
+Proof. exact check_some_outcomes. Qed.
+Print Assumptions c06_search_sound.
+
+(* what the binary search alone establishes, in every mode: the first block and the block ending at the
+   search position q are byte-equal - nothing about the blocks in between (see c06_fixed1_blind_spot_refuted) *)
+Theorem c06_search_probed_blocks :
   forall digest md5 digest_eqb,
   (forall a b, digest_eqb a b = true <-> a = b) ->
   (forall a b : bytes, length a = length b -> md5 a = md5 b -> a = b) ->
@@ -36,12 +55,11 @@ Theorem c06_search_sound :
     firstn (Z.to_nat csz) (fbytes f) = firstn (Z.to_nat csz) (fbytes l) /\
     firstn (Z.to_nat csz) (skipn (Z.to_nat (q - csz)) (fbytes f)) =
     firstn (Z.to_nat csz) (skipn (Z.to_nat (q - csz)) (fbytes l)).
-Proof. exact check_some_sound. Qed.
-Print Assumptions c06_search_sound.
+Proof. exact check_some_probed. Qed.
+Print Assumptions c06_search_probed_blocks.
 
-(* a follower file that is a record-boundary prefix of the leader's log, at least one block long:
-   the check keeps a record-boundary prefix of it (CSTruncate: the first k records) or all of it
-   (CSIntact) and resumes exactly at the end of what is kept; it never starts over, never errs *)
+(* a follower file that is a record-boundary prefix of the leader's log, at least one block long: the
+   check keeps a record-boundary prefix of it or all of it and resumes exactly at the end of what is kept *)
 Theorem c06_prefix_resume :
   forall digest md5 digest_eqb,
   (forall a b, digest_eqb a b = true <-> a = b) ->
@@ -54,52 +72,69 @@ Theorem c06_prefix_resume :
 Proof. exact check_some_prefix. Qed.
 Print Assumptions c06_prefix_resume.
 
-(* after any (re)connect whose starting point is a true prefix or a start-over, the follower is in step:
-   memory = replay of its file, aofsz = size of its file, file ++ pending stream = leader's log *)
+(* ... and from two blocks on it returns exactly |F|: nothing is truncated *)
+Theorem c06_prefix_resume_exact :
+  forall digest md5 digest_eqb,
+  (forall a b, digest_eqb a b = true <-> a = b) ->
+  (forall a b : bytes, length a = length b -> md5 a = md5 b -> a = b) ->
+  forall csz, 0 < csz ->
+  forall f rest, 2 * csz <= flen f ->
+  fst (check_some digest md5 digest_eqb csz Repaired f (flen f) (f ++ rest)) = CSIntact (flen f).
+Proof. exact check_some_prefix_exact. Qed.
+Print Assumptions c06_prefix_resume_exact.
+
+(* after ANY (re)connect of a follower whose dataset is the replay of its own log - whatever that log
+   contains - the follower is in step: memory = replay of its file, aofsz = size of its file,
+   file ++ pending stream = leader's log *)
 Theorem c06_connect_in_step :
   forall digest md5 digest_eqb,
   (forall a b, digest_eqb a b = true <-> a = b) ->
   (forall a b : bytes, length a = length b -> md5 a = md5 b -> a = b) ->
   forall csz, 0 < csz ->
-  forall st st0 app l f,
-  wf_log l ->
-  prefix_cond st st0 app l f \/ startover_cond digest md5 digest_eqb csz st l f ->
+  forall st st0 app (okrec : record -> Prop),
+  (forall (a b : record) x y, okrec a -> okrec b -> a ++ x = b ++ y -> a = b) ->
+  forall l f,
+  oklog okrec l -> wf_fol st st0 app okrec f ->
   synced st st0 app l (connect digest md5 digest_eqb csz st st0 app Repaired l f) /\
+  wf_fol st st0 app okrec (connect digest md5 digest_eqb csz st st0 app Repaired l f) /\
   exists s, f_ses (connect digest md5 digest_eqb csz st st0 app Repaired l f) = Some s /\ s_aofsize s = flen l.
 Proof. exact connect_synced. Qed.
 Print Assumptions c06_connect_in_step.
 
-(* convergence (partial: the connects of the trace must not fall into the "check some" blind spot, see
-   c06_blind_spot_refuted): from ANY follower state (any file, any dataset, any aofsz, any flags), for ANY
-   command semantics and ANY sequence of connect / deliver / dropped connection / follower restart / pause /
-   leader append / leader AOFSHRINK, once the stream has been handled completely the follower's dataset is
-   the replay of the leader's log, its log is identical to the leader's and aofsz is its size *)
-Theorem c06_converge_partial :
+(* convergence: from ANY follower (any log content; dataset = replay of that log, aofsz = its size), for
+   ANY command semantics and ANY sequence of reconnect attempts / connects / deliveries / dropped
+   connections / follower restarts / pauses / leader appends / leader AOFSHRINKs: once the stream has been
+   handled completely the follower's dataset is the replay of the leader's log, its log is identical to
+   the leader's and aofsz is its size.  Nothing is assumed about when or in which state it connects. *)
+Theorem c06_converge :
   forall digest md5 digest_eqb,
   (forall a b, digest_eqb a b = true <-> a = b) ->
   (forall a b : bytes, length a = length b -> md5 a = md5 b -> a = b) ->
   forall csz, 0 < csz ->
-  forall st st0 app l0 f0 es,
-  upd_ok st st0 app l0 -> wf_log l0 -> f_ses f0 = None ->
-  ok_trace digest md5 digest_eqb csz st st0 app (l0, f0) es ->
+  forall st st0 app (okrec : record -> Prop),
+  (forall (a b : record) x y, okrec a -> okrec b -> a ++ x = b ++ y -> a = b) ->
+  forall l0 f0 es,
+  upd_ok st st0 app l0 -> oklog okrec l0 -> wf_fol st st0 app okrec f0 -> f_ses f0 = None ->
+  ok_trace digest md5 digest_eqb csz st st0 app okrec (l0, f0) es ->
   forall l f, run digest md5 digest_eqb csz st st0 app Repaired (l0, f0) es = (l, f) -> drained f = true ->
   f_mem f = replay st st0 app l /\ f_file f = l /\ f_aofsz f = flen l.
 Proof. exact converge. Qed.
-Print Assumptions c06_converge_partial.
+Print Assumptions c06_converge.
 
-(* never caught-up while lacking acknowledged commands: l1 = the leader's log when the follower
-   (re)connects; during that session (deliveries, pauses, further leader writes) the caught-up flag
-   implies that the follower's log starts with all of l1 and its dataset is the replay of its log *)
+(* never caught-up while lacking acknowledged commands: l1 = the leader's log when the follower (in ANY
+   state) (re)connects; during that session the caught-up flag implies that the follower's log starts
+   with all of l1 and its dataset is the replay of its log *)
 Theorem c06_not_premature :
   forall digest md5 digest_eqb,
   (forall a b, digest_eqb a b = true <-> a = b) ->
   (forall a b : bytes, length a = length b -> md5 a = md5 b -> a = b) ->
   forall csz, 0 < csz ->
-  forall st st0 app l1 f1 es,
-  upd_ok st st0 app l1 -> wf_log l1 ->
-  prefix_cond st st0 app l1 f1 \/ startover_cond digest md5 digest_eqb csz st l1 f1 ->
+  forall st st0 app (okrec : record -> Prop),
+  (forall (a b : record) x y, okrec a -> okrec b -> a ++ x = b ++ y -> a = b) ->
+  forall l1 f1 es,
+  upd_ok st st0 app l1 -> oklog okrec l1 -> wf_fol st st0 app okrec f1 ->
   Forall session_event es ->
-  ok_trace digest md5 digest_eqb csz st st0 app (step digest md5 digest_eqb csz st st0 app Repaired (l1, f1) EConnect) es ->
+  ok_trace digest md5 digest_eqb csz st st0 app okrec (step digest md5 digest_eqb csz st st0 app Repaired (l1, f1) EConnect) es ->
   forall l f, run digest md5 digest_eqb csz st st0 app Repaired (step digest md5 digest_eqb csz st st0 app Repaired (l1, f1) EConnect) es = (l, f) ->
   f_cup f = true ->
   exists extra, f_file f = l1 ++ extra /\ f_mem f = replay st st0 app (f_file f).
@@ -125,17 +160,43 @@ Definition mk (file : file) (aofsz : Z) : fol toy_st :=
      f_ses := None; f_broken := false |}.
 Definition trun md csz := run bytes idm bytes_eqb csz toy_st [] toy_app md.
 
-(* the hypotheses of c06_converge_partial are satisfiable by a non-trivial state: a follower holding
-   unrelated data, real checksumsz; it ends with the leader's two objects and nothing else *)
+(* toy records are self-delimiting: the tag fixes the length *)
+Definition toy_okrec (r : record) : Prop :=
+  match r with
+  | [1; _; _; _]%N | [2; _; _]%N | [3; _; _]%N | [4; _]%N => True
+  | _ => False
+  end.
+
+Example toy_prefix_free : forall (a b : record) x y, toy_okrec a -> toy_okrec b -> a ++ x = b ++ y -> a = b.
+Proof.
+  intros a b x y Ha Hb E.
+  destruct a as [|t [|a1 [|a2 [|a3 [|a4 a]]]]]; cbn in Ha; try contradiction;
+  destruct b as [|u [|b1 [|b2 [|b3 [|b4 b]]]]]; cbn in Hb; try contradiction;
+  repeat match goal with H : match ?t with _ => _ end |- _ => destruct t; try contradiction end;
+  cbn in E; inversion E; subst; try reflexivity; try discriminate;
+  repeat match goal with H : Npos _ = Npos _ |- _ => inversion H end.
+Qed.
+
+(* the hypotheses of c06_converge are satisfiable by a non-trivial state: a follower holding unrelated data,
+   real checksumsz; it ends with the leader's two objects and nothing else *)
 Example c06_converge_example :
   let l := [[1;7;1;5]; [1;7;2;6]]%N in
   let f0 := mk [[1;9;9;9]]%N 4 in
-  ok_trace bytes idm bytes_eqb c_checksumsz toy_st [] toy_app (l, f0) [EConnect; EDeliver; EDeliver] /\
-  let f := snd (trun Repaired c_checksumsz (l, f0) [EConnect; EDeliver; EDeliver]) in
+  (upd_ok toy_st [] toy_app l /\ oklog toy_okrec l /\ wf_fol toy_st [] toy_app toy_okrec f0 /\
+   ok_trace bytes idm bytes_eqb c_checksumsz toy_st [] toy_app toy_okrec (l, f0) [EBegin; EConnect; EDeliver; EDeliver]) /\
+  let f := snd (trun Repaired c_checksumsz (l, f0) [EBegin; EConnect; EDeliver; EDeliver]) in
   drained f = true /\ f_cup f = true /\ f_mem f = [(7, [(1, 5); (2, 6)])]%N /\ f_file f = l.
-Proof. split; [split; [right; left; reflexivity | repeat split] | vm_compute; repeat split]. Qed.
+Proof.
+  split; [|vm_compute; repeat split].
+  split; [|split; [|split]].
+  - intros pre r post E. destruct pre as [|a [|b [|c pre]]]; cbn in E; inversion E; subst; try reflexivity.
+    all: try (destruct pre; discriminate).
+  - split; repeat constructor.
+  - split; [reflexivity|split; [reflexivity|split; repeat constructor]].
+  - cbn. repeat split.
+Qed.
 
-(* ---- the code as found (mode Pinned): refuted; repaired by proposed_fixes/C06-follow-start-over.diff.
+(* ---- the code as found (mode Pinned): refuted; repaired by commit "follow-start-over".
         The same witnesses are scenarios of the harness corpus and fail on the unpatched server. ---- *)
 
 (* data the follower held before FOLLOW survives next to the leader's (aofsz < checksumsz: resync from 0
@@ -152,11 +213,11 @@ Print Assumptions c06_pinned_no_reset_refuted.
    the stale aofsz makes it report caught up after ONE of the three streamed records *)
 Theorem c06_pinned_premature_caughtup_refuted :
   exists l f0 es, let f := snd (trun Pinned c_checksumsz (l, f0) es) in
-    prefix_cond toy_st [] toy_app l f0 /\ f_cup f = true /\ drained f = false /\
+    (exists rest, l = f_file f0 ++ rest) /\ f_cup f = true /\ drained f = false /\
     ~ exists extra, f_file f = l ++ extra.
 Proof.
   exists [[1;7;1;5]; [1;7;2;6]; [1;7;3;7]]%N, (mk [[1;7;1;5]; [1;7;2;6]]%N 8), [EConnect; EDeliver].
-  split; [exists [[1;7;3;7]]%N; repeat split |].
+  split; [exists [[1;7;3;7]]%N; reflexivity |].
   vm_compute. repeat split. intros [extra H]. discriminate.
 Qed.
 Print Assumptions c06_pinned_premature_caughtup_refuted.
@@ -169,13 +230,15 @@ Theorem c06_pinned_intact_at_boundary_refuted :
 Proof. exists [[1;7;1;5]; [4;7]]%N, [[1;7;3;7]]%N. vm_compute. repeat split. Qed.
 Print Assumptions c06_pinned_intact_at_boundary_refuted.
 
-(* ---- open finding (also in the repaired code): the check compares only some blocks.  Two logs of equal
-        length that differ in a block that is not probed are declared "fully intact" (checksumsz scaled to 4) ---- *)
-Theorem c06_blind_spot_refuted :
-  exists f l, fst (check_some bytes idm bytes_eqb 4 Repaired f (flen f) l) = CSIntact (flen f) /\
-              flen f = flen l /\ f <> l.
+(* ---- commit "follow-start-over" alone (mode Fixed1): the search compares only some blocks.  Two logs of
+        equal length that differ in a block that is not probed are declared "fully intact" (checksumsz scaled
+        to 4); repaired by proposed_fixes/C06-check-whole-prefix.diff: mode Repaired starts over ---- *)
+Theorem c06_fixed1_blind_spot_refuted :
+  exists f l, fst (check_some bytes idm bytes_eqb 4 Fixed1 f (flen f) l) = CSIntact (flen f) /\
+              flen f = flen l /\ f <> l /\
+              fst (check_some bytes idm bytes_eqb 4 Repaired f (flen f) l) = CSStartOver.
 Proof.
   exists [[1;7;1;5]; [1;7;2;6]; [1;7;3;7]]%N, [[1;7;1;5]; [1;7;2;9]; [1;7;3;7]]%N.
   vm_compute. repeat split; discriminate.
 Qed.
-Print Assumptions c06_blind_spot_refuted.
+Print Assumptions c06_fixed1_blind_spot_refuted.
